@@ -257,7 +257,9 @@ def check(ctx):
         def swf(bb, e, ls):
             for k, lab in choice.items():
                 if bb == found[k][0]:
-                    return (lab,)
+                    # `lab` is in terms of the normalised (>=) form of the test; translate to this switch's own edge labels
+                    tbs = [tb for tb, nl in found[k][1].items() if lab in nl]
+                    return tuple(l for tb in tbs for l in ls.get(tb, []))
             return None
         return swf
 
